@@ -798,7 +798,13 @@ theorem setObj_self {w : World} {k : Nat} {o : Obj} (h : w.objs k = some o) : w.
     · rename_i e; subst e; exact h.symm
     · rfl
 
-theorem aliasConstraints_sameShape (w : World) (i1 i2 : ObjId) : SameShape w (aliasConstraints w i1 i2).w := by
+theorem aliasConstraints_cases (w : World) (i1 i2 : ObjId) :
+    aliasConstraints w i1 i2 = { w := w, err := some .constraint } ∨ aliasConstraints w i1 i2 = aliasConstraintsL w i1 i2 := by
+  simp only [aliasConstraints]; split
+  · exact Or.inl rfl
+  · exact Or.inr rfl
+
+theorem aliasConstraintsL_sameShape (w : World) (i1 i2 : ObjId) : SameShape w (aliasConstraintsL w i1 i2).w := by
   have put : ∀ (w : World) (i : ObjId) (q : Par) (c : Con), parSetConstraint (w.heap.get i) c = .ok q →
       SameShape w (w.putPar i q) := by
     intro w i q c hq
@@ -811,7 +817,7 @@ theorem aliasConstraints_sameShape (w : World) (i1 i2 : ObjId) : SameShape w (al
       · cases hq
       · cases hq; rfl
     · rfl
-  simp only [aliasConstraints]
+  simp only [aliasConstraintsL]
   split
   · exact SameShape.refl w
   · split
@@ -827,6 +833,12 @@ theorem aliasConstraints_sameShape (w : World) (i1 i2 : ObjId) : SameShape w (al
         · rename_i q1 hq1
           exact (put w i2 q2 _ hq2).trans (put _ i1 q1 _ hq1)
     · exact SameShape.refl w
+
+
+theorem aliasConstraints_sameShape (w : World) (i1 i2 : ObjId) : SameShape w (aliasConstraints w i1 i2).w := by
+  rcases aliasConstraints_cases w i1 i2 with h | h <;> rw [h]
+  · exact SameShape.refl w
+  · exact aliasConstraintsL_sameShape w i1 i2
 
 theorem aliasPair_unfold {w : World} {k : Nat} {o : Obj} (h : ObjInv w k o) (ho : w.objs k = some o) (p1 p2 : String) :
     aliasPair w k p1 p2 =
